@@ -125,6 +125,12 @@ func c03LoadRef(r *h.R, rp ref.Point, mode int) (*curve.EdwardsPoint, ref.Point,
 		r.Fail("EdwardsPoint.SetCompressedY:rejected-valid-point", "enc=%x err=%v", loadEnc, err)
 		return nil, rp, false
 	}
+	if mode%4 == 0 && (mode>>3)&1 == 0 && bytes.Equal(enc, c03BasepointEnc) {
+		// the operand IS the package's exported base point object (what a caller writes: points = {B, A}), not a copy
+		// of its value: a routine that recognises it by address takes another path than for an equal point elsewhere
+		p = curve.ED25519_BASEPOINT_POINT
+		r.Class("operand:exported-basepoint-object").NT(true)
+	}
 	if mode%4 != 0 {
 		aux, err := c03Load(c03AuxEnc)
 		if err != nil {
@@ -140,6 +146,8 @@ func c03LoadRef(r *h.R, rp ref.Point, mode int) (*curve.EdwardsPoint, ref.Point,
 	}
 	return p, rp, true
 }
+
+var c03BasepointEnc = ref.Base.Encode()
 
 var c03AuxRef = h.C03SpecPoint(h.PointSpec{A: h.Hex{0x39, 0x30}, J: 3})
 
